@@ -171,3 +171,46 @@ def refused_changes_nothing(rng, n):
         if rng.random() < 0.5:
             lines.append(execgen.render([b"TTL", b"acc"], names, full=True))
     return lines
+
+
+# ---------------------------------------------------------------------------------------------------------------------------------------
+# read - change - read again: whatever a reading command computes or caches must not outlive a change made through another command
+class Reread:
+    def __init__(self, gen, spec):
+        """spec: {lower-case reading command: (changes(rng, k) -> [argv...], rereads(k) -> [argv...])}"""
+        self.gen, self.spec, self.plan, self.owner = gen, spec, [], None
+
+    def __call__(self, rng, keys):
+        if self.plan and self.owner is keys:
+            return self.plan.pop(0)
+        self.plan = []
+        argv, ks = self.gen(rng, keys)
+        name = argv[0].lower() if argv else b""
+        if name in self.spec and len(argv) >= 2 and rng.random() < 0.5:
+            k = argv[1]
+            changes, rereads = self.spec[name]
+            self.plan = [(rng.choice(changes(rng, k)), [k])] + [(a, [k]) for a in rereads(k)]
+            self.owner = keys
+        return argv, ks
+
+
+def hash_reread(gen):
+    from . import execgen_hash as h
+    ch = lambda rng, k: [[b"HDEL", k, rng.choice(h.FIELDS)], [b"HSET", k, rng.choice(h.FIELDS), rng.choice(h.VALS)], [b"HINCRBY", k, rng.choice(h.FIELDS), b"1"],
+                         [b"HSETNX", k, rng.choice(h.FIELDS), b"z"], [b"HDEL", k] + list(h.FIELDS[:4])]
+    rr = lambda k: [[b"HGETALL", k], [b"HLEN", k]]
+    return Reread(gen, {n: (ch, rr) for n in (b"hgetall", b"hkeys", b"hvals", b"hlen", b"hrandfield", b"hget", b"hexists")})
+
+
+def list_reread(gen):
+    ch = lambda rng, k: [[b"LPOP", k], [b"RPOP", k], [b"LSET", k, b"0", b"changed"], [b"LREM", k, b"0", b"a"], [b"LTRIM", k, b"1", b"-1"],
+                         [b"RPUSH", k, b"new"], [b"LMOVE", k, k, b"LEFT", b"RIGHT"]]
+    rr = lambda k: [[b"LRANGE", k, b"0", b"-1"], [b"LLEN", k]]
+    return Reread(gen, {n: (ch, rr) for n in (b"lrange", b"llen", b"lindex", b"lpos")})
+
+
+def zset_reread(gen):
+    ch = lambda rng, k: [[b"ZADD", k, rng.choice([b"1", b"5", b"-2", b"1.5"]), rng.choice([b"a", b"b", b"c", b"zz"])], [b"ZREM", k, rng.choice([b"a", b"b", b"c"])],
+                         [b"ZADD", k, b"INCR", b"3", rng.choice([b"a", b"b"])]]
+    rr = lambda k: [[b"ZRANGE", k, b"0", b"-1", b"WITHSCORES"], [b"ZRANK", k, b"a"]]
+    return Reread(gen, {n: (ch, rr) for n in (b"zrange", b"zrank")})
